@@ -133,13 +133,13 @@ PROPS["C17"] = {
 PROPS["C04"] = {
     "level": "proof",
     "technique": "Lean 4: NTRUSolve tower (Bezout base case, lifting step, Babai step) preserves the NTRU equation in any commutative ring; public-key relation from the C11 development; per-key exact re-check (model and independent harness oracle); guard constants re-extracted",
-    "rule": "ops = keygen from seeds (2+1 per variant quick, 48 thorough) through the public API, judged by an exact big-integer oracle (f*G-g*F = q over Z, h*f = g mod q, f invertible, all tree leaves in [sigma_min, sigma_max]); for each key a traced op whose exact checks are recomputed by the Lean model (NTRU equation over Z, ntt h . ntt f = ntt g, ntt f nowhere zero); distinct by op line",
+    "rule": "ops = keygen from seeds (2+1 per variant quick, 48 thorough) through the public API, judged by an exact big-integer oracle (f*G-g*F = q over Z, h*f = g mod q, f invertible, all tree leaves in [sigma_min, sigma_max]); for each key a traced op whose exact checks are recomputed by the Lean model (NTRU equation over Z, ntt h . ntt f = ntt g, ntt f nowhere zero); the tower on coefficient lists (field_norm, lift_poly, galois_adjoint, lift_step) and the base case ntru_base a b = the extended Euclid loop on big integers (all pairs in [-6,6]^2, Fibonacci pairs, random operands of 8..4000 bits, a third with a common factor) against the model and an exact oracle; distinct by op line",
     "exhaustive": {"quick": (False, ""), "thorough": (False, "")},
-    "level_text": "Machine-checked algebra (any commutative ring, so all degrees and inputs): Bezout base case, the lifting step F = F'(x^2) g(-x), G = G'(x^2) f(-x) and every Babai step produce/preserve solutions of f*G - g*F = q; ntt h . ntt f = ntt g implies h*f = g in Z_q[X]/(X^n+1). On coefficient lists: field_norm, lift_next_cyclotomic and galois_adjoint (models compared with the Rust functions) are N, f(X^2), f(-X) at every root of X^n+1 (tower_maps), the lifting step is sound (lift_step_sound), and a model of the whole NTRUSolve recursion — extended gcd and the Babai quotients of every level as parameters — returns only solutions of the NTRU equation, for every depth (ntru_solve_sound). Every generated key is re-checked exactly (over Z) by the model and the harness. NOT proved: losslessness of the i32/i16 narrowing steps for every seed and the leaf range (two NTRU-lattice Gram-Schmidt facts outside this formalisation); leaves are range-checked numerically per key. Seeds whose candidate stream touches a guard of ntru_gen (zero NTT slot per slot, Gram-Schmidt norm next to the bound, coefficients at the range limits) are replayed from corpus/special_seeds.txt, so a weakened guard yields a concrete invalid key; the translator also pins the guards' textual shape and constants.",
+    "level_text": "Machine-checked algebra (any commutative ring, so all degrees and inputs): Bezout base case, the lifting step F = F'(x^2) g(-x), G = G'(x^2) f(-x) and every Babai step produce/preserve solutions of f*G - g*F = q; ntt h . ntt f = ntt g implies h*f = g in Z_q[X]/(X^n+1). On coefficient lists: field_norm, lift_next_cyclotomic and galois_adjoint (models compared with the Rust functions) are N, f(X^2), f(-X) at every root of X^n+1 (tower_maps), the lifting step is sound (lift_step_sound), and a model of the whole NTRUSolve recursion — extended gcd and the Babai quotients of every level as parameters — returns only solutions of the NTRU equation, for every depth (ntru_solve_sound). The extended Euclid loop of math.rs::xgcd itself (model with truncating division, terminating by |r| decreasing) satisfies Bezout's identity and returns the gcd up to sign for all integers (xgcd_bezout), so with it only the Babai quotients remain a parameter (ntru_solve_sound_with_xgcd) and an accepted base pair has coprime inputs and solves the equation (ntru_base_accepts_coprime). Every generated key is re-checked exactly (over Z) by the model and the harness. NOT proved: losslessness of the i32/i16 narrowing steps for every seed and the leaf range (two NTRU-lattice Gram-Schmidt facts outside this formalisation); leaves are range-checked numerically per key. Seeds whose candidate stream touches a guard of ntru_gen (zero NTT slot per slot, Gram-Schmidt norm next to the bound, coefficients at the range limits) are replayed from corpus/special_seeds.txt, so a weakened guard yields a concrete invalid key; the translator also pins the guards' textual shape and constants.",
     "level_note": "Trusted: Lean kernel + Mathlib; translator (guard shapes/constants in ntru_gen); floating-point parts of keygen (Gram-Schmidt norm, Babai quotients, LDL tree) are not modelled: their integer consequences are checked per key.",
     "trusted_base": TB_COMMON + ["floating-point parts of key generation are not modelled; num-bigint modelled by Lean Int"],
     "assumptions": ["sampled seeds; keygen defects that need a rare seed are covered only through the translator's pattern on the guards"],
-    "not_proved": ["leaf range for all seeds", "narrowing conversions lossless for all seeds", "field_norm/lift/galois_adjoint on lists implement N, iota, sigma"],
+    "not_proved": ["leaf range for all seeds", "narrowing conversions lossless for all seeds", "that num-bigint's arithmetic is Lean's Int arithmetic (xgcd is proved on the model and compared with the real routine per run); termination of babai_reduce (capped at 1000 rounds; any quotient sequence is sound)"],
     "release_too": False,
     "parallel_model": True,
     "run_timeout": {"quick": 900, "thorough": 3000},
